@@ -13,7 +13,8 @@ def ensure():
         r = sh(f"git -C /repo worktree add --detach {SCR} HEAD")
         if r.returncode != 0:
             print(r.stderr); sys.exit(2)
-    sh(f"git -C {SCR} checkout -q -- . && git -C {SCR} clean -fdq")
+    head = sh("git -C /repo rev-parse HEAD").stdout.strip()
+    sh(f"git -C {SCR} checkout -q -- . && git -C {SCR} clean -fdq && git -C {SCR} checkout -q --detach {head}")
 def main():
     props, rel, old, new = sys.argv[1:5]
     count = int(sys.argv[5]) if len(sys.argv) > 5 else 1
